@@ -230,10 +230,13 @@ class New(Op):
         if op.get("subclass"):
             # an instance of a trivial USER subclass: still a CodeBlock / Section / ... for every
             # purpose of the API (isinstance), whatever type(x) says
-            cache = w.__dict__.setdefault("user_subclasses", {})
-            if kind not in cache:
-                cache[kind] = type("User" + cls.__name__, (cls,), {})
-            cls = cache[kind]
+            nm = "User" + cls.__name__
+            sub = globals().get(nm)
+            if sub is None or sub.__mro__[1] is not cls:
+                # a module-level class, so that pickle can find it again
+                sub = type(nm, (cls,), {"__module__": __name__, "__qualname__": nm})
+                globals()[nm] = sub
+            cls = sub
             w.counters["probe:user_subclass_instances"] += 1
         out = capture(lambda: cls(**kw))
         if out.kind == "ok":
@@ -772,7 +775,7 @@ class SetOp(Op):
 # ---------------------------------------------------------------------------
 # ir.modules (list) operations
 
-MUTATING_LIST = ("insert", "append", "extend", "iadd", "pop", "remove", "delitem", "delslice", "setitem", "setslice", "reverse", "clear")
+MUTATING_LIST = ("insert", "append", "extend", "iadd", "pop", "remove", "delitem", "delslice", "setitem", "setslice", "reverse", "clear", "iter_mutate")
 PURE_LIST = ("index", "count", "getitem", "getslice", "len", "contains", "iter", "reversed")
 
 
@@ -811,6 +814,12 @@ class ListOp(Op):
 
     def ready(self, w, op):
         meth = op["method"]
+        if meth == "iter_mutate":
+            k, how, x = op["args"]
+            cur = w.m.nodes[op["ir"]].a["modules"]
+            if how == 0:
+                return x in cur
+            return x not in cur and w.m.nodes[x].parent is None and not collides(w, [x], op["ir"])
         if meth in ("insert", "append", "extend", "iadd", "setitem", "setslice"):
             I = op["ir"]
             m = w.m
@@ -923,6 +932,26 @@ class ListOp(Op):
         elif meth == "contains":
             x = objs(args[0])
             fn = lambda: x in lst
+        elif meth == "iter_mutate":
+            # an iterator over ir.modules is advanced k times, the list changes size through
+            # ANOTHER route (a module leaves via m.ir = None, or joins via m.ir = I), then the
+            # iterator is drained: the built-in list protocol (index based: sees appended items,
+            # ends early when the list shrank), never an IndexError
+            k, how, x = args
+            xo = w.objs[x]
+
+            def fn():
+                it = iter(lst)
+                seen = []
+                for _ in range(k):
+                    try:
+                        seen.append(next(it))
+                    except StopIteration:
+                        break
+                xo.ir = None if how == 0 else I
+                seen.extend(it)
+                return seen
+
         elif meth == "iter":
             fn = lambda: list(lst)
         elif meth == "reversed":
@@ -937,6 +966,8 @@ class ListOp(Op):
                     out.value = "self" if r is lst else "other"
                 elif meth in ("pop", "getitem"):
                     out.value = w.L(r)
+                elif meth == "iter_mutate":
+                    out.value = [w.L(x) for x in r]
                 elif meth in ("getslice", "iter", "reversed"):
                     plain_ok = type(r) is list
                     out.value = ["plain" if plain_ok else "notplain:" + type(r).__name__, [w.L(x) for x in r]]
@@ -1023,6 +1054,21 @@ class ListOp(Op):
                 val = len(L)
             elif meth == "contains":
                 val = args[0] in L
+            elif meth == "iter_mutate":
+                k, how, x = args
+                it = iter(L)
+                seen = []
+                for _ in range(k):
+                    try:
+                        seen.append(next(it))
+                    except StopIteration:
+                        break
+                if how == 0:
+                    L.remove(x)
+                else:
+                    L.append(x)
+                seen.extend(it)
+                val = seen
             elif meth == "iter":
                 val = ["plain", list(L)]
             elif meth == "reversed":
